@@ -167,13 +167,47 @@ def getitem_int_spec(sx, self, i):
 
 
 SLICE_ARG = Built(["hi", "lo"], lambda env: slice(env["hi"], env["lo"], None), lambda asg: "None", lambda asg: None)
-con = contract("cohdl._core._type_qualifier:TypeQualifier.__getitem__", PROPS + ("C17",))  # C17: from_bits slices nested records
+def getitem_runtime_spec(sx, self, index):
+    """x[idx] with a run-time index: an element view whose reference is Offset(idx, base) -- the position is idx PLUS the
+    absolute position of the view's lowest bit (every enclosing slice's stop), so that v[13:2][9:3][i] denotes v(i + 5)"""
+    real_self, real_index = sx.real_args
+    base = abs_lo(self)
+
+    def holds(res):
+        if not (isinstance(res, SObj) and isinstance(res.cls, SCls) and res.cls.kind is Signal):
+            return False
+        f = res.fields
+        if f.get("_root") is not real_self.fields["_root"]:
+            return False
+        prev = real_self.fields["_ref_spec"]
+        prev = prev[:-1] if (prev and isinstance(prev[-1], Slice)) else prev
+        rs = f.get("_ref_spec")
+        if not isinstance(rs, list) or len(rs) != len(prev) + 1 or any(x is not y for x, y in zip(rs, prev)):
+            return False
+        ref = rs[-1]
+        if not (isinstance(ref, SObj) and ref.kind is Offset and ref.fields["offset"] is real_index):
+            return False
+        v = f.get("_value")
+        if not (isinstance(v, SObj) and issubclass(v.kind, Bit)):
+            return False
+        return sym.eq(ssum(ref.fields["base_offset"]), base)
+
+    return C.Pred(holds, "element view Offset(index, base offsets summing to the view's absolute low position)")
+
+
+RT_INDEX = Built([], lambda env: SObj(Signal, f_tag="run-time index", _value=Opaque("index value"), _ref_spec=[]), lambda asg: "None", lambda asg: None)
+# C17: from_bits slices nested records; C02 / C09: indexing and slicing (constant or run-time index) denote the same bits
+# in the constant fold and in the emitted reference
+con = contract("cohdl._core._type_qualifier:TypeQualifier.__getitem__", PROPS + ("C17", "C02", "C09"))
 for K in (BitVector, Unsigned, Signed):
     for path in ("root", "slice0", "slice1", "slice2"):
         c = Case(f"{K.__name__}.{path}[hi:lo]", [view_shape(K, path), SLICE_ARG], getitem_slice_spec)
         c.native = False
         con.cases.append(c)
         c = Case(f"{K.__name__}.{path}[i]", [view_shape(K, path), PyInt("i")], getitem_int_spec)
+        c.native = False
+        con.cases.append(c)
+        c = Case(f"{K.__name__}.{path}[run-time index]", [view_shape(K, path), RT_INDEX], getitem_runtime_spec)
         c.native = False
         con.cases.append(c)
 
